@@ -20,6 +20,7 @@ var propPkgs = map[string][]string{
 	"C16": {"pkg/node", "pkg/partition", "pkg/convert"},
 	"C10": {"pkg/query/aggregation"},
 	"C13": {"pkg/pipeline/sdk"},
+	"C04": {"pkg/fs"},
 }
 
 type Finding struct {
